@@ -1,6 +1,7 @@
 """C09 — the HTTP client completes each fetch once, honours max_clients, redirects safely
 (SimpleAsyncHTTPClient over scripted FakeStreams on the virtual loop vs lean/TornadoModel/C09)."""
 import os
+import asyncio  # noqa: F401  (imported here, before the workers fork: a watchdog firing inside a worker's first `import asyncio` on a starved box leaves the module half-initialised)
 import base64, errno, itertools, re, urllib.parse
 from core.wire import atom, line, parse_reply, Atom
 
